@@ -3,6 +3,7 @@ package rules
 import (
 	"fmt"
 	"go/token"
+	"os"
 	"sort"
 	"strings"
 
@@ -19,6 +20,7 @@ func init() {
 			"(D3) silent drop vs REFUSED: for UDP and DNSCrypt the hook returns a plain error (no reply), for every other transport a BeforeRequestError whose response is built by makeResponseREFUSED; (D4) allow-list vs block-list mode: allow-list mode is decided from all three allowed collections; the allowed collections are consulted only in allow-list mode and the disallowed ones only otherwise; a client is reported blocked only when (allow-list mode and both address and ClientID are excluded) or (block-list mode and at least one is excluded); the decision reads one snapshot of the access manager under the server lock. " +
 			"(D5) no configured entry is dropped: in the list builder every iteration that does not return an error records the entry — the parsed address in the address set, the parsed prefix appended to the network list, or the string in the ClientID set — and both lists of the access manager are built by it from the configured slices; the address check tests every stored network (the scan leaves the loop early only by returning a match). " +
 			"(D4, cont.) the blocked decision of IsBlockedClient is evaluated abstractly for all 16 combinations of (address given, address excluded, allow-list mode, ClientID excluded) and must equal the access rule, through whatever helpers and control flow compute it; (D5, cont.) every configured blocked-host rule is lower-cased where the engine's rule text is built (request names are matched lower-cased). " +
+			"(D2, cont.) the blocked-hosts list is consulted with the question's own name and type. " +
 			"Not decided: CIDR containment and zone handling, ClientID case, blocked-host pattern semantics (value-level).",
 		RuleText:    "CFG edge guards on SSA, phi-leaf classification of the decision inputs, call-graph reachability restricted to static module callees.",
 		Assumptions: []string{"dnsproxy v0.75.3 shape asserted on its loaded source (handleBefore before RequestHandler)"},
@@ -120,6 +122,46 @@ func runC03(c *Ctx) {
 	off2, _ := core.UnguardedSinks(hb, admit, gHost)
 	r.Check(n2 >= 2 && len(off2) == 0, "C03-D2", "admit-only-unblocked-name", p.FnPos(hb),
 		"a single-question request is admitted only if its name is not on the blocked-hosts list", "a request can be admitted without its name having been checked against the blocked-hosts list", traceOf(p, off2)...)
+	// the blocked-hosts engine is asked about this request's own name and type (typed rules, $dnstype, decide on it)
+	{
+		nQ := 0
+		var badQ []string
+		for _, call := range core.CallsToDeep(hb, "(*dnsforward.accessManager).isBlockedHost") {
+			if len(call.Common.Args) < 3 {
+				continue
+			}
+			nQ++
+			for idx, want := range map[int]string{1: "Name", 2: "Qtype"} {
+				okArg, nO := true, 0
+				vals, okRoot := core.InRoot(call.Arg(idx), hb)
+				if !okRoot {
+					vals = []ssa.Value{call.Arg(idx)}
+				}
+				for _, v := range vals {
+					tr := map[string]bool{"aghnet.NormalizeDomain": true}
+					for k := range core.DefaultTransparent {
+						tr[k] = true
+					}
+					for _, o := range core.Origins(v, core.ProvOpts{Prog: p, Transparent: tr}) {
+						if o.Kind == "const" {
+							continue
+						}
+						nO++
+						if !(o.Kind == "field" && o.Key == "github.com/miekg/dns.Question."+want) {
+							okArg = false
+						}
+					}
+				}
+				if !okArg || nO == 0 {
+					badQ = append(badQ, fmt.Sprintf("argument %d of isBlockedHost at %s is not the question's %s", idx, p.InstrPos(call.Instr), want))
+				}
+			}
+		}
+		sort.Strings(badQ)
+		r.Check(nQ > 0 && len(badQ) == 0, "C03-D2", "blocked-hosts-asked-about-the-question", p.FnPos(hb),
+			"the blocked-hosts list is consulted with the question's name and type",
+			"the blocked-hosts list is consulted with something other than the question's own name and type (a class where the type belongs, say): typed rules then refuse the wrong requests and admit the ones they name", badQ...)
+	}
 	// blocked -> preBlockedResponse
 	for _, key := range []string{"(*dnsforward.Server).IsBlockedClient", "(*dnsforward.accessManager).isBlockedHost"} {
 		idx := -1
@@ -134,13 +176,17 @@ func runC03(c *Ctx) {
 		})
 		var starts []core.Point
 		for e := range gB {
-			starts = append(starts, core.Point{Block: e.From.Succs[e.Succ], Idx: 0})
+			starts = append(starts, core.AfterEdge(e))
 		}
 		found := true
-		if len(starts) > 0 {
-			found, _, _ = core.Reach(core.Query{From: starts, Target: core.IsReturn, Avoid: core.IsCallTo(false, "(*dnsforward.Server).preBlockedResponse")})
+		var trB []*ssa.BasicBlock
+		if os.Getenv("AGHVERIF_DEBUG") != "" {
+			fmt.Println("DEBUG", key, "guards", len(gB), "starts", len(starts), "blocks", len(hb.Blocks))
 		}
-		r.Check(!found, "C03-D2", "blocked-goes-to-preBlockedResponse:"+key, p.FnPos(hb), "a blocked request leaves the hook through preBlockedResponse", "a blocked request can leave the hook without preBlockedResponse")
+		if len(starts) > 0 {
+			found, trB, _ = core.Reach(core.Query{From: starts, Target: core.IsReturn, Avoid: core.IsCallTo(false, "(*dnsforward.Server).preBlockedResponse")})
+		}
+		r.Check(!found, "C03-D2", "blocked-goes-to-preBlockedResponse:"+key, p.FnPos(hb), "a blocked request leaves the hook through preBlockedResponse", "a blocked request can leave the hook without preBlockedResponse", p.TraceString(trB))
 	}
 	// nothing reachable from the hook records or resolves
 	forbidden := map[string]bool{
@@ -232,7 +278,7 @@ func c03PreBlocked(c *Ctx) {
 	// (b) from a drop edge, no reply return is reachable
 	var starts []core.Point
 	for e := range dropEdges {
-		starts = append(starts, core.Point{Block: e.From.Succs[e.Succ], Idx: 0})
+		starts = append(starts, core.AfterEdge(e))
 	}
 	foundReply := false
 	var trR []*ssa.BasicBlock
